@@ -16,9 +16,9 @@ package c14
 
 import (
 	"bytes"
-	"os"
 	"fmt"
 	"math/rand"
+	"os"
 	"sort"
 	"testing"
 
@@ -160,13 +160,23 @@ func runCase(t *testing.T, run *core.Run, name string, idx int, rng *rand.Rand) 
 	const unstaking = 6
 	opts := node.WorldOpts{
 		Nodes: 2, GenesisVals: 6, ExtraVals: 2, Users: 4, Gov: true,
-		Stake:   func(i int, r *rand.Rand) uint64 { return 1_000_000_000 + uint64(r.Intn(3))*700_000_000 },
+		Stake: func(i int, r *rand.Rand) uint64 {
+			if idx%4 == 1 {
+				return 1_000_000_000 // just above the minimum stake of these chains
+			}
+			return 1_000_000_000 + uint64(r.Intn(3))*700_000_000
+		},
 		Weights: map[string]int{"send": 30, "stake": 4, "edit-stake": 4, "pause": 3, "unpause": 4},
 		Params: func(p *fsm.Params, r *rand.Rand) {
 			p.Consensus.ProtocolVersion = fsm.NewProtocolVersion(0, version)
 			p.Validator.UnstakingBlocks, p.Validator.DelegateUnstakingBlocks = unstaking, unstaking
 			p.Validator.NonSignWindow, p.Validator.MaxNonSign = 1000, 1000
 			p.Validator.DoubleSignSlashPercentage, p.Validator.MaxSlashPerCommittee = dsPct, capPct
+			if idx%4 == 1 {
+				// the first slash of a block already drops the validator below the minimum stake (forced unstaking); further
+				// slashes in the same block must still respect the cap
+				p.Validator.MinimumStakeForValidators = 990_000_000
+			}
 		},
 	}
 	w, err := node.NewWorld(rng, opts)
@@ -250,6 +260,26 @@ func runCase(t *testing.T, run *core.Run, name string, idx int, rng *rand.Rand) 
 		h := w.Height()
 		proposer := b % 2
 		replica := 1 - proposer
+		// snapshot taken while every node is at a clean committed state (a node that has validated the proposal already holds
+		// the next block in its working state)
+		before := stakeOf()
+		// the parameters the begin-block of this block will use (governance may have changed them)
+		dsPct, capPct, version := dsPct, capPct, version
+		if vp, e := ch.Nodes[0].C.FSM.GetParamsVal(); e == nil && vp != nil {
+			dsPct, capPct = vp.DoubleSignSlashPercentage, vp.MaxSlashPerCommittee
+		}
+		if os.Getenv("C14_DEBUG") != "" {
+			fmt.Printf("DEBUG %s h=%d dsPct=%d cap=%d\n", name, h, dsPct, capPct)
+		}
+		if ch.Nodes[0].C.FSM.IsFeatureEnabled(2) {
+			version = 2
+		} else {
+			version = 1
+		}
+		unst := map[string]uint64{}
+		for _, k := range w.ValKeys {
+			unst[lib.BytesToString(k.PublicKey().Bytes())] = unstakingAt(k)
+		}
 		leader := ch.Nodes[proposer].C.Consensus
 		// 'expired' = root height below (the root height the leader is on - unstaking blocks); governance may change the
 		// parameter, so the larger of its last two values is used (the code reads it from the state of the root height)
@@ -312,6 +342,9 @@ func runCase(t *testing.T, run *core.Run, name string, idx int, rng *rand.Rand) 
 				va, alt := m.views[vi], m.alts[vi]
 				bi, hi := byzIdx(m), honestIdx(m)
 				c := rng.Intn(13)
+				if c == 12 && idx%4 == 1 && h < 5 {
+					continue // (see below: in these chains nothing implicates anybody before height 5)
+				}
 				if c == 12 {
 					// a view only the Byzantine keys ever voted in: chain height chosen freely (evidence is valid for any height),
 					// root height fresh or long expired; both payloads signed by the Byzantine keys alone
@@ -344,6 +377,9 @@ func runCase(t *testing.T, run *core.Run, name string, idx int, rng *rand.Rand) 
 				}
 				if c <= 1 && m.height%3 == 0 {
 					continue // these equivocations are withheld until they have expired
+				}
+				if c <= 1 && idx%4 == 1 && h < 5 {
+					continue // in these chains the first report names several root heights at once (see below)
 				}
 				switch c {
 				case 0, 1: // genuine equivocation: everybody on A, Byzantine keys on B
@@ -393,6 +429,27 @@ func runCase(t *testing.T, run *core.Run, name string, idx int, rng *rand.Rand) 
 					if m2.rootHeight != m.rootHeight && len(byzIdx(m2)) > 0 {
 						add("other-committee-bitmap", assemble(ch, L, va, m2.vs, all(m2.vs), nil, nil), assemble(ch, L, alt, m2.vs, byzIdx(m2), nil, nil))
 					}
+				}
+			}
+		}
+		if idx%4 == 1 && h == 5 {
+			// the first slash list of this chain carries several root heights for each Byzantine key in ONE block (the per-block,
+			// per-committee cap must hold across them, also when the first of them already forces the validator to unstake)
+			for _, m := range mats {
+				if m.height%3 == 0 {
+					continue
+				}
+				var bi []int
+				for p := range byz {
+					bz, _ := lib.StringToBytes(p)
+					if i := idxOf(m.vs, bz); i >= 0 {
+						bi = append(bi, i)
+					}
+				}
+				sort.Ints(bi)
+				a, bq := assemble(ch, L, m.views[0], m.vs, all(m.vs), nil, nil), assemble(ch, L, m.alts[0], m.vs, bi, nil, nil)
+				if a != nil && bq != nil {
+					offers = append(offers, forged{"genuine", &bft.DoubleSignEvidence{VoteA: a, VoteB: bq}})
 				}
 			}
 		}
@@ -566,24 +623,6 @@ func runCase(t *testing.T, run *core.Run, name string, idx int, rng *rand.Rand) 
 			t.Fatalf("%s: nobody could sign", name)
 		}
 		p.QC.Signature = signedQC.Signature
-		before := stakeOf()
-		// the parameters the begin-block of this block will use (governance may have changed them)
-		dsPct, capPct, version := dsPct, capPct, version
-		if vp, e := ch.Nodes[0].C.FSM.GetParamsVal(); e == nil && vp != nil {
-			dsPct, capPct = vp.DoubleSignSlashPercentage, vp.MaxSlashPerCommittee
-		}
-		if os.Getenv("C14_DEBUG") != "" {
-			fmt.Printf("DEBUG %s h=%d qcHeight=%d qcRoot=%d leaderRoot=%d minRef=%d dsPct=%d cap=%d\n", name, h, p.QC.Header.Height, p.QC.Header.RootHeight, leader.RootHeight, minRef, dsPct, capPct)
-		}
-		if ch.Nodes[0].C.FSM.IsFeatureEnabled(2) {
-			version = 2
-		} else {
-			version = 1
-		}
-		unst := map[string]uint64{}
-		for _, k := range w.ValKeys {
-			unst[lib.BytesToString(k.PublicKey().Bytes())] = unstakingAt(k)
-		}
 		if e := ch.Deliver(proposer, p.QC, nil, false); e != nil {
 			fail("certified-block-not-committed", h, map[string]any{"error": e.Error(), "node": "proposer", "previous_results_slashes": fmt.Sprint(pendingSlash)})
 			return
@@ -593,6 +632,12 @@ func runCase(t *testing.T, run *core.Run, name string, idx int, rng *rand.Rand) 
 			return
 		}
 		after := stakeOf()
+		if os.Getenv("C14_DEBUG") != "" {
+			for i := 1; i <= 2; i++ {
+				pub := lib.BytesToString(w.ValKeys[i].PublicKey().Bytes())
+				fmt.Printf("DEBUG %s h=%d byz%d stake %d -> %d pending=%d claimedNow=%d unst=%d\n", name, h, i, before[pub], after[pub], pendingSlash[pub], len(claimed), unst[pub])
+			}
+		}
 		// ---- stake deltas of this block (its begin-block executed the previous block's slash list) ----
 		for pub, bs := range before {
 			as := after[pub]
@@ -604,6 +649,9 @@ func runCase(t *testing.T, run *core.Run, name string, idx int, rng *rand.Rand) 
 			}
 			dec := bs - as
 			run.Count("stake_decreases_observed", 1)
+			if os.Getenv("C14_DEBUG") != "" {
+				fmt.Printf("DEBUG %s h=%d stake %s.. %d -> %d listed=%d dsPct=%d cap=%d v=%d unst=%d\n", name, h, pub[:8], bs, as, pendingSlash[pub], dsPct, capPct, version, unst[pub])
+			}
 			k := pendingSlash[pub]
 			if L.honest[pub] {
 				fail("honest-validator-stake-decreased", h, map[string]any{"validator": pub, "before": bs, "after": as})
